@@ -59,3 +59,12 @@ fn to_obj(m: BTreeMap<String, Value>) -> Value {
     }
     Value::Object(out)
 }
+
+/// ReDB persistence only: queue the time-stamp update the one-second timer task would queue now.
+#[cfg(feature = "redb")]
+pub async fn redb_queue_timestamp_update(wb: &Worterbuch) -> bool {
+    match &wb.persistent_storage {
+        crate::persistence::PersistentStorageImpl::ReDB(s) => s.verif_queue_timestamp_update().await,
+        _ => false,
+    }
+}
